@@ -7,7 +7,11 @@ import stdmap
 def find_funcs(ix, qual, sig=None):
     """definitions matching a qualified C++ name (optionally substring of the signature)"""
     out = []
-    for n in ix.funcs_by_qual.get(qual, []):
+    cands = [n for n in ix.funcs_by_qual.get(qual, []) if n['id'] not in ix.pattern]
+    if not cands:
+        for k, v in ix.funcs_by_qual.items():
+            if k.startswith(qual + '<') and not qual.split('::')[-1].startswith('operator'): cands.extend(v)
+    for n in cands:
         if n['id'] in ix.pattern: continue
         d = ix.definition(ix.first.get(n['id'], n['id']))
         if d is None: continue
